@@ -330,7 +330,7 @@ def run_shard(shard, tier, seed):
                 judge(res, env, kind, depth, [], {oflag: True}, {}, sub="policy-other-flag") if not (oflag == "allow_external_sources" and kind in ("post_template", "fin_template")) else None
             res["samples"].append({"sub": "policy", "kind": kind, "env": {envname: "TRUE"}})
         elif sub == "vars":
-            for depth in depths_for(kind, tier)[:2]:
+            for depth in depths_for(kind, tier):
                 for loc in ("inside", "outside", "symlink", "sibling"):
                     for vap in (None, "dir"):
                         for sp in (False, True):
